@@ -667,5 +667,7 @@ def get_hardware_num_denom(
         )
 
     denom_diff = 4 - instr.angle_denom.value
-    angle_num = instr.angle_num.value * (2**denom_diff)
+    # Angles are multiples of pi/16 now, so the numerator is 32-periodic (2 pi).
+    # Reducing it keeps it within the 8 bits available in the encoding.
+    angle_num = (instr.angle_num.value * (2**denom_diff)) % 32
     return (Immediate(angle_num), Immediate(4))
